@@ -36,6 +36,53 @@ def renderOp : UOG.UOp Bytes → String
 /-- `UOG.diffU` on the values, one token per operation -/
 def coreOps (A B : List DNode) : List String := (UOG.diffU (A.map (·.val)) (B.map (·.val))).map renderOp
 
+/-! ## Stage 3a: a user-ordered leaf-list with inert neighbours among the siblings -/
+
+/-- an inert sibling: a leaf, or a child-less container, of a schema node that is neither user-ordered nor position-addressed -/
+def inertH (S : Schema) (n : DNode) : Bool :=
+  !S.isUserOrd n.sid && !S.isDupInst n.sid &&
+    ((S.kind? n.sid == some .leaf && n.isTerm) || (S.kind? n.sid == some .container && !n.isTerm && n.kids.isEmpty))
+
+/-- equality of two child-less nodes, field by field -/
+def eqFlat (a b : DNode) : Bool :=
+  a.sid == b.sid && a.flags == b.flags && a.metas == b.metas && a.val == b.val && a.isTerm == b.isTerm
+    && a.kids.isEmpty && b.kids.isEmpty
+
+def eqFlatL : List DNode → List DNode → Bool
+  | [], [] => true
+  | a :: as, b :: bs => eqFlat a b && eqFlatL as bs
+  | _, _ => false
+
+def nodupN : List Nat → Bool
+  | [] => true
+  | x :: xs => !xs.contains x && nodupN xs
+
+/-- the split of a sibling list around the instances of `s` -/
+def splitAt (s : Nat) (A : List DNode) : List DNode × List DNode × List DNode :=
+  let r := A.dropWhile (·.sid != s)
+  (A.takeWhile (·.sid != s), r.takeWhile (·.sid == s), r.dropWhile (·.sid == s))
+
+/-- the schema node `s` of the user-ordered leaf-list, if the hypotheses of `apply_diff_userord_ll_neighbours` hold:
+`A = P ++ instances ++ Q`, `B = P ++ instances' ++ Q` with the same inert neighbours -/
+def nbLL (S : Schema) (A B : List DNode) : Option Nat :=
+  match (A ++ B).find? (fun n => S.kind? n.sid == some .leaflist && S.isUserOrd n.sid && S.config n.sid) with
+  | none => none
+  | some n0 =>
+    let s := n0.sid
+    let a := splitAt s A
+    let b := splitAt s B
+    if S.kind? s == some .leaflist && S.isUserOrd s && S.config s
+        && eqFlatL a.1 b.1 && eqFlatL a.2.2 b.2.2
+        && (a.1 ++ a.2.2).all (inertH S) && nodupN ((a.1 ++ a.2.2).map (·.sid))
+        && a.1.all (fun n => decide (n.sid < s)) && a.2.2.all (fun n => decide (s < n.sid))
+        && a.2.1.all (isPlainInst s) && b.2.1.all (isPlainInst s)
+        && nodupB (a.2.1.map (·.val)) && nodupB (b.2.1.map (·.val)) && !(b.2.1.map (·.val)).contains []
+    then some s else none
+
+/-- `UOG.diffU` on the values of the instances of `s` -/
+def coreOpsNB (s : Nat) (A B : List DNode) : List String :=
+  (UOG.diffU ((splitAt s A).2.1.map (·.val)) ((splitAt s B).2.1.map (·.val))).map renderOp
+
 /-! ## Stage 2a: one user-ordered list with a single key, key-only instances -/
 
 def isPlainKL (s : Nat) : DNode → Bool
